@@ -101,11 +101,11 @@ theorem usub_one {top : Nat} (h0 : top ≠ 0) (hU : top < U) : usub top 1 = top 
   unfold usub U at *
   omega
 
-theorem insertLoop_spec (hs : List Nat) : ∀ (fuel top : Nat) (ah : Int) (acc : List Child),
+theorem insertLoop_spec (stops : Bool) (hs : List Nat) : ∀ (fuel top : Nat) (ah : Int) (acc : List Child),
     top < U → Contig 0 acc → Heights hs acc →
     (∀ f, acc.head? = some f → f.idx = top + 1 ∧ f.row = ah) →
-    Contig 0 (insertLoop hs fuel top ah acc).2.2 ∧ Heights hs (insertLoop hs fuel top ah acc).2.2 ∧
-    (∀ l, (insertLoop hs fuel top ah acc).2.2.getLast? = some l →
+    Contig 0 (insertLoop stops hs fuel top ah acc).2.2 ∧ Heights hs (insertLoop stops hs fuel top ah acc).2.2 ∧
+    (∀ l, (insertLoop stops hs fuel top ah acc).2.2.getLast? = some l →
         acc.getLast? = some l ∨ (acc = [] ∧ l.idx = top ∧ l.row + (l.height : Int) = ah)) := by
   intro fuel
   induction fuel with
@@ -140,7 +140,8 @@ theorem insertLoop_spec (hs : List Nat) : ∀ (fuel top : Nat) (ah : Int) (acc :
           | cons a rest => exact Or.inl (by simpa [List.getLast?_cons_cons] using hl)
         split
         · exact ⟨hc', hh', hlast⟩
-        · rename_i h0
+        · rename_i h0'
+          have h0 : top ≠ 0 := fun h => h0' (Or.inl h)
           have hu := usub_one h0 hU
           have hrec := ih (usub top 1) (ah - (h : Int)) _ (by rw [hu]; omega) hc' hh'
             (fun f hfh => by
@@ -185,11 +186,11 @@ theorem restack_getLast : ∀ (cs : List Child) (r : Int) (l : Child), (restack 
 
 /-- After `insertChildren` (gap 0): the inserted children are contiguous, have the builder's
     heights, and the last one is the item just above the old top. -/
-theorem insertChildren_spec (hs : List Nat) (top : Nat) (ah : Int) (h0 : top ≠ 0) (hU : top < U) :
-    Contig 0 (insertChildren hs top ah).2.2 ∧ Heights hs (insertChildren hs top ah).2.2 ∧
-    ∀ l, (insertChildren hs top ah).2.2.getLast? = some l → l.idx + 1 = top := by
+theorem insertChildren_spec (stops : Bool) (hs : List Nat) (top : Nat) (ah : Int) (h0 : top ≠ 0) (hU : top < U) :
+    Contig 0 (insertChildren stops hs top ah).2.2 ∧ Heights hs (insertChildren stops hs top ah).2.2 ∧
+    ∀ l, (insertChildren stops hs top ah).2.2.getLast? = some l → l.idx + 1 = top := by
   have hu := usub_one h0 hU
-  have sp := insertLoop_spec hs top (usub top 1) ah [] (by rw [hu]; omega) trivial
+  have sp := insertLoop_spec stops hs top (usub top 1) ah [] (by rw [hu]; omega) trivial
     (by intro c hc; cases hc) (by intro f hf; cases hf)
   unfold insertChildren
   simp only []
@@ -225,15 +226,15 @@ theorem prologue_spec (s : St) :
     · intro h0; exact hn ⟨h, h0⟩
     · exact h
 
-theorem scrollUp_spec (hs : List Nat) (s1 : St) (ah1 ah2 : Int) (s2 : St) (cs0 : List Child)
-    (he : scrollUp hs s1 ah1 = .ok (ah2, s2, cs0)) (hU : s1.top < U) (h0 : ah1 > 0 → s1.top ≠ 0) :
+theorem scrollUp_spec (stops : Bool) (hs : List Nat) (s1 : St) (ah1 ah2 : Int) (s2 : St) (cs0 : List Child)
+    (he : scrollUp stops hs s1 ah1 = .ok (ah2, s2, cs0)) (hU : s1.top < U) (h0 : ah1 > 0 → s1.top ≠ 0) :
     Contig 0 cs0 ∧ Heights hs cs0 ∧
     (∀ l, cs0.getLast? = some l → l.idx + 1 = s1.top ∧ l.row + (l.height : Int) = ah2) ∧
     (¬ ah1 > 0 → cs0 = []) ∧ s2.cursor = s1.cursor ∧ s2.wantsCursor = s1.wantsCursor := by
   unfold scrollUp at he
   split at he
   · rename_i hpos
-    have sp := insertChildren_spec hs s1.top ah1 (h0 hpos) hU
+    have sp := insertChildren_spec stops hs s1.top ah1 (h0 hpos) hU
     simp only [] at he
     split at he
     · cases he
@@ -265,7 +266,7 @@ theorem reveal_spec {gap : Int} {hs : List Nat} (cs : List Child) (s : St) (H : 
 
 /-- Children returned by one `Draw`, from any state: in index order, contiguous with the gap, each
     with its builder height — provided the gap is 0 or this draw does not scroll upward. -/
-theorem draw_layout (guard : Bool) (cfg : Cfg) (hs : List Nat) (s : St) (W H : Nat)
+theorem draw_layout (guard : Facts) (cfg : Cfg) (hs : List Nat) (s : St) (W H : Nat)
     (hU : s.top < U)
     (hg : cfg.gap = 0 ∨ ¬ (0 < - (s.offset + s.pending) ∧ s.top ≠ 0))
     (s' : St) (cs : List Child) (he : draw guard cfg hs s W H = .ok (s', cs)) :
@@ -278,7 +279,7 @@ theorem draw_layout (guard : Bool) (cfg : Cfg) (hs : List Nat) (s : St) (W H : N
     split at he
     · cases he
     · rename_i ah2 s2 cs0 hsu
-      have sp := scrollUp_spec hs _ _ ah2 s2 cs0 hsu (by rw [p1]; exact hU) (fun h => by rw [p1]; exact (p4 h).1)
+      have sp := scrollUp_spec _ hs _ _ ah2 s2 cs0 hsu (by rw [p1]; exact hU) (fun h => by rw [p1]; exact (p4 h).1)
       obtain ⟨c0, h0, l0, e0, _, _⟩ := sp
       -- the inserted children are contiguous for the configured gap
       have hgap : cs0 = [] ∨ cfg.gap = 0 := by
@@ -319,7 +320,7 @@ theorem cursorChild_nil (cursor : Nat) (h : cursor < 2 ^ 63) : cursorChild [] cu
   have : ¬ ((cursor : Int) < ((0 : Nat) : Int)) := by omega
   simp
 
-theorem draw_empty (guard : Bool) (cfg : Cfg) (s : St) (W H : Nat) (hi : EmptyInv s)
+theorem draw_empty (guard : Facts) (cfg : Cfg) (s : St) (W H : Nat) (hi : EmptyInv s)
     (hW : W ≠ 65535) (hH : H ≠ 65535) :
     ∃ s', draw guard cfg [] s W H = .ok (s', []) ∧ EmptyInv s' := by
   obtain ⟨ht, hc⟩ := hi
@@ -339,7 +340,7 @@ def OpOk : Op → Prop
   | .draw W H => W ≠ 65535 ∧ H ≠ 65535
   | _ => True
 
-theorem step_empty (guard : Bool) (cfg : Cfg) (s : St) (op : Op) (hi : EmptyInv s) (ho : OpOk op) :
+theorem step_empty (guard : Facts) (cfg : Cfg) (s : St) (op : Op) (hi : EmptyInv s) (ho : OpOk op) :
     ∃ s', step guard cfg [] s op = .ok s' ∧ EmptyInv s' := by
   obtain ⟨ht, hc⟩ := hi
   cases op with
@@ -364,7 +365,7 @@ theorem step_empty (guard : Bool) (cfg : Cfg) (s : St) (op : Op) (hi : EmptyInv 
     obtain ⟨s', he, hi'⟩ := draw_empty guard cfg s W H ⟨ht, hc⟩ ho.1 ho.2
     exact ⟨s', by simp [step, he], hi'⟩
 
-theorem run_empty (guard : Bool) (cfg : Cfg) : ∀ (ops : List Op) (s : St), EmptyInv s →
+theorem run_empty (guard : Facts) (cfg : Cfg) : ∀ (ops : List Op) (s : St), EmptyInv s →
     (∀ op ∈ ops, OpOk op) → ∃ s', run guard cfg [] s ops = .ok s' ∧ EmptyInv s'
   | [], s, hi, _ => ⟨s, rfl, hi⟩
   | op :: ops, s, hi, ho => by
@@ -494,13 +495,13 @@ theorem reveal_visible (cs : List Child) (s : St) (H : Nat) (c : Child)
     `ensureScroll` leaves behind on a top-aligned scroll state with no pending scroll: either the top
     is the cursor with offset 0, or the cursor is below the top, the wants-cursor flag is set and the
     offset lies within the top item. -/
-theorem draw_cursor_visible (cfg : Cfg) (hs : List Nat) (s : St) (W H : Nat) (hc : Nat)
+theorem draw_cursor_visible (st : Bool) (cfg : Cfg) (hs : List Nat) (s : St) (W H : Nat) (hc : Nat)
     (hgap : 0 ≤ cfg.gap) (hW : W ≠ 65535) (hH : H ≠ 65535) (hH1 : 1 ≤ H)
     (hp : s.pending = 0) (hoff : 0 ≤ s.offset)
     (htc : s.top ≤ s.cursor) (hcur : hs[s.cursor]? = some hc) (hc1 : 1 ≤ hc) (hc63 : s.cursor < 2 ^ 63)
     (hA : s.cursor = s.top → s.offset = 0)
     (hB : s.top < s.cursor → s.wantsCursor = true ∧ ∃ ht, hs[s.top]? = some ht ∧ s.offset ≤ (ht : Int)) :
-    ∃ s' cs, draw true cfg hs s W H = .ok (s', cs) ∧
+    ∃ s' cs, draw ⟨true, st⟩ cfg hs s W H = .ok (s', cs) ∧
       ∃ c ∈ cs, c.idx = s.cursor ∧ c.height = hc ∧ Visible H c := by
   have hb : ¬ (H = 65535 ∨ W = 65535) := fun h => h.elim hH hW
   have hah : ¬ (- s.offset > 0) := by clear hB hA; omega
@@ -580,20 +581,20 @@ def Settled (hs : List Nat) (s : St) : Prop :=
 
 /-- After `ensureScroll` on a settled state with the cursor moved to an existing item, one `Draw`
     shows that item. -/
-theorem ensureScroll_draw_visible (cfg : Cfg) (hs : List Nat) (s : St) (c W H hc : Nat)
+theorem ensureScroll_draw_visible (st : Bool) (cfg : Cfg) (hs : List Nat) (s : St) (c W H hc : Nat)
     (hgap : 0 ≤ cfg.gap) (hW : W ≠ 65535) (hH : H ≠ 65535) (hH1 : 1 ≤ H)
     (hs0 : Settled hs s) (hcur : hs[c]? = some hc) (hc1 : 1 ≤ hc) (hc63 : c < 2 ^ 63) :
-    ∃ s' cs, draw true cfg hs (ensureScroll { s with cursor := c }) W H = .ok (s', cs) ∧
+    ∃ s' cs, draw ⟨true, st⟩ cfg hs (ensureScroll { s with cursor := c }) W H = .ok (s', cs) ∧
       ∃ ch ∈ cs, ch.idx = c ∧ ch.height = hc ∧ Visible H ch := by
   obtain ⟨hp, ho, ht, hht, hle⟩ := hs0
   unfold ensureScroll
   simp only []
   split
   · rename_i hgt
-    exact draw_cursor_visible cfg hs _ W H hc hgap hW hH hH1 hp ho (Nat.le_of_lt hgt) hcur hc1 hc63
+    exact draw_cursor_visible st cfg hs _ W H hc hgap hW hH hH1 hp ho (Nat.le_of_lt hgt) hcur hc1 hc63
       (fun h => by simp only [] at h; omega) (fun _ => ⟨rfl, ht, hht, hle⟩)
   · rename_i hle'
-    exact draw_cursor_visible cfg hs _ W H hc hgap hW hH hH1 hp (Int.le_refl 0) (Nat.le_refl _) hcur hc1 hc63
+    exact draw_cursor_visible st cfg hs _ W H hc hgap hW hH hH1 hp (Int.le_refl 0) (Nat.le_refl _) hcur hc1 hc63
       (fun _ => rfl) (fun h => by simp only [] at h; omega)
 
 end VaxisModel.Lemmas.DynList
